@@ -250,8 +250,10 @@ def to_model(desc: dict[str, Any], script: list[list[Any]]) -> dict[str, Any]:
                     reg(b["id"], b.get("rows", 1), shmsvc.mk_out(m.get("okind", "int"), b["id"], b.get("rows", 1)))
             if hdr and init != "ok":
                 # the error is read in place of the header: open() raises, no session object, nothing on the wire afterwards
+                # (the logs the method emitted before it raised are flushed in front of the error)
                 ev = svcgen.exc_view(init["raise"])
-                plan.append(("fixed", [["error", ev["type"], f"{ev['type']}: {ev['text']}", ev["kind"]]]))
+                pre = [["log", x["level"], x["text"], sorted([list(i) for i in x.get("extra", {}).items()])] for x in m["init_logs"]]
+                plan.append(("fixed", pre + [["error", ev["type"], f"{ev['type']}: {ev['text']}", ev["kind"]]]))
                 cur = None
                 live_model_session = False
                 continue
